@@ -221,11 +221,10 @@ Fixpoint same_index_restart (l : list (nat * bool)) : bool :=
   | [] => false
   end.
 
-Definition aud_oracle_bad (k : aud_case) (a : string) (sh : cond_shape) : bool :=
+Definition aud_oracle_bad (ran_to_end : bool) (k : aud_case) (a : string) (sh : cond_shape) : bool :=
   let js := judge_of_aud a (k_judge k) in
   let ps := periods_of js in
   let reps := reports_of_aud a (k_coll k) in
-  let ran_to_end := Z.eqb (k_status k) 0 in
   negb (
     alternates true js
     && (if ran_to_end then closed js else true)                                    (* every period closed *)
@@ -251,20 +250,29 @@ Definition aud_oracle_bad (k : aud_case) (a : string) (sh : cond_shape) : bool :
     granularity of [codes_in]; the mood-change event runs two rounds under one
     index, so a period can stop and the next start in the same index: such
     cases are skipped by the fresh-evaluator clause only (flagged here). *)
+(** The play "ran to its end" when the audition was not cut short by an
+    evaluation error of an activation condition or of a computes / collects
+    clause (the only errors that end an audition: a predicate that fails to
+    evaluate is reported and the audition goes on).  An implementation that
+    stops although the history holds no such error (the model, which stops
+    exactly on those, runs to the end) is judged as a play that ran to its
+    end: its periods must all be closed. *)
+Definition ran_to_end_of (k : aud_case) : bool :=
+  Z.eqb (k_status k) 0 || Z.eqb (status_code (snd (model_outs k))) 0.
+
 Definition case_oracle_bad (k : aud_case) : bool :=
   Z.eqb (k_status k) 2                                                              (* a crash is a failure by itself *)
-  || existsb (fun '(a, sh) => aud_oracle_bad k a sh) (k_shapes k).
+  || (let ran := ran_to_end_of k in existsb (fun '(a, sh) => aud_oracle_bad ran k a sh) (k_shapes k)).
 
 (** Which clause of the oracle fails (bit set): 1 starts/stops do not
     alternate, 2 a period is left open at the end of the play, 4 a report
     outside every period, 8 a period's codes are not those of a fresh evaluator
     with exactly one end judgement, 16 the periods are not the stretches over
     which the condition holds, 32 a crash. *)
-Definition aud_oracle_code (k : aud_case) (a : string) (sh : cond_shape) : N :=
+Definition aud_oracle_code (ran_to_end : bool) (k : aud_case) (a : string) (sh : cond_shape) : N :=
   let js := judge_of_aud a (k_judge k) in
   let ps := periods_of js in
   let reps := reports_of_aud a (k_coll k) in
-  let ran_to_end := Z.eqb (k_status k) 0 in
   ((if alternates true js then 0 else 1)
    + (if (if ran_to_end then closed js else true) then 0 else 2)
    + (if forallb (fun '(r, _) => in_some_period ps r) reps then 0 else 4)
@@ -287,7 +295,7 @@ Definition aud_oracle_code (k : aud_case) (a : string) (sh : cond_shape) : N :=
 
 Definition case_oracle_code (k : aud_case) : N :=
   ((if Z.eqb (k_status k) 2 then 32 else 0)
-   + fold_left N.lor (map (fun '(a, sh) => aud_oracle_code k a sh) (k_shapes k)) 0)%N.
+   + (let ran := ran_to_end_of k in fold_left N.lor (map (fun '(a, sh) => aud_oracle_code ran k a sh) (k_shapes k)) 0))%N.
 
 (** * The verdicts of a period against the plain meaning over its observations
 
@@ -300,7 +308,18 @@ Definition case_oracle_code (k : aud_case) : N :=
     round that closes it, both included.  The result codes reported in the
     period must be those of the modality's automaton run afresh over exactly
     these observations, followed by the end judgement. *)
-Inductive pred_shape := PSigCmp (x : var) (gt : bool) (k : Q).
+Inductive pred_shape :=
+| PSigCmp (x : var) (gt : bool) (k : Q)
+  (** the same comparison over a variable [w] that the auditor itself
+      [computes] as the signal [x].  [w] is assigned in the rounds that sample
+      [x] while the auditor audits (and keeps its value from one period to the
+      next); once it has a value the predicate is observed in EVERY round the
+      auditor takes part in: each sample event of the period (for an activation
+      by a signal: each one that samples that signal), the round that opens a
+      mood-delimited period, and the two rounds (end of the old mood, start of
+      the new one) of the mood change that closes it.  Periods still open at
+      the end of the play are not judged for this shape. *)
+| PCompCmp (x : var) (gt : bool) (k : Q).
 
 Definition sample_of (x : var) (vs : list (var * value)) : option Q :=
   match find (fun '(y, _) => var_eqb x y) vs with
@@ -321,7 +340,7 @@ Fixpoint observations (sh : cond_shape) (p : pred_shape) (i : nat) (es : list ev
                           | _ => true
                           end in
             match p with
-            | PSigCmp x gt k =>
+            | PSigCmp x gt k | PCompCmp x gt k =>
                 match sample_of x vs with
                 | Some q => if act_ok then (if gt then negb (Qle_bool q k) else negb (Qle_bool k q)) :: rest else rest
                 | None => rest
@@ -330,6 +349,37 @@ Fixpoint observations (sh : cond_shape) (p : pred_shape) (i : nat) (es : list ev
         | _ => rest
         end
       else rest
+  end.
+
+Definition cmp_obs (gt : bool) (k q : Q) : bool := if gt then negb (Qle_bool q k) else negb (Qle_bool k q).
+
+Fixpoint obs_comp (sh : cond_shape) (x : var) (gt : bool) (k : Q) (ps : list (nat * option nat)) (w : option Q)
+         (i : nat) (es : list event) (lo : nat) (hi : option nat) : list bool :=
+  match es with
+  | [] => []
+  | e :: tl =>
+      let inp := Nat.leb lo i && match hi with Some h => Nat.leb i h | None => true end in
+      match e with
+      | ESig _ vs =>
+          let act_ok := match sh with
+                        | CSigGt y _ => match sample_of y vs with Some _ => true | None => false end
+                        | _ => true
+                        end in
+          let w' := if in_some_period ps i && act_ok then
+                      match sample_of x vs with Some q => Some q | None => w end
+                    else w in
+          (if inp && act_ok then match w' with Some q => [cmp_obs gt k q] | None => [] end else [])
+          ++ obs_comp sh x gt k ps w' (S i) tl lo hi
+      | EMood _ _ =>
+          (match sh, w with
+           | CMoodIs _, Some q =>
+               if Nat.eqb i lo then [cmp_obs gt k q]
+               else if (match hi with Some h => Nat.eqb i h | None => false end) then [cmp_obs gt k q; cmp_obs gt k q]
+               else []
+           | _, _ => []
+           end) ++ obs_comp sh x gt k ps w (S i) tl lo hi
+      | EFinal _ => obs_comp sh x gt k ps w (S i) tl lo hi
+      end
   end.
 
 Definition pred_oracle_bad (k : aud_case) (a : string) (sh : cond_shape) (p : pred_shape) : bool :=
@@ -344,8 +394,12 @@ Definition pred_oracle_bad (k : aud_case) (a : string) (sh : cond_shape) (p : pr
                    let codes := codes_in reps i j in
                    if existsb (Z.eqb 1) codes then true else
                    match j with
-                   | Some _ =>
-                       match run_period tbl (observations sh p 1 (k_events k) i j) with
+                   | Some jj =>
+                       if (match p with PCompCmp _ _ _ => Nat.leb (List.length (k_events k)) jj | _ => false end) then true else
+                       match run_period tbl (match p with
+                                             | PSigCmp _ _ _ => observations sh p 1 (k_events k) i j
+                                             | PCompCmp x gt kk => obs_comp sh x gt kk ps None 1 (k_events k) i j
+                                             end) with
                        | Some vs => list_eqb Z.eqb codes (map verdict_code vs)
                        | None => true
                        end
